@@ -57,7 +57,11 @@ impl MemcacheBinaryConnection {
             //
             // On success, the number of bytes is returned. `0` indicates "end
             // of stream".
+            #[cfg(memcrs_verif)]
+            crate::verif::note_read_begin(self as *const _ as usize, self.buffer.len());
             if 0 == self.stream.read_buf(&mut self.buffer).await? {
+                #[cfg(memcrs_verif)]
+                crate::verif::note_read_end(self as *const _ as usize, self.buffer.len());
                 // The remote closed the connection. For this to be a clean
                 // shutdown, there should be no data in the read buffer. If
                 // there is, this means that the peer closed the socket while
@@ -71,6 +75,8 @@ impl MemcacheBinaryConnection {
                     ));
                 }
             }
+            #[cfg(memcrs_verif)]
+            crate::verif::note_read_end(self as *const _ as usize, self.buffer.len());
         }
     }
 
@@ -85,7 +91,11 @@ impl MemcacheBinaryConnection {
         }
 
         loop {
+            #[cfg(memcrs_verif)]
+            crate::verif::note_read_begin(self as *const _ as usize, 0);
             bytes_read = self.stream.read_buf(&mut buffer).await?;
+            #[cfg(memcrs_verif)]
+            crate::verif::note_read_end(self as *const _ as usize, bytes_read);
 
             // The remote closed the connection. For this to be a clean
             // shutdown, there should be no data in the read buffer. If
